@@ -5,7 +5,8 @@
 (* structural fields pushed to extremes together, a field fault followed by a truncation,   *)
 (* self-referential constants; for text every line x every cell / indentation / tag /       *)
 (* duplication / deletion / non-UTF-8 fault and pairs on neighbouring lines; for            *)
-(* descriptors every position x deletion / duplication / replacement.                       *)
+(* descriptors every position x deletion / duplication / replacement; grown structures      *)
+(* (deep nesting, many wide parameters, a label at every offset) at boundary sizes.         *)
 EXTENDS Mutate, Json, IOUtils
 
 CONSTANT Tier
@@ -16,10 +17,11 @@ vars == <<phase, sid, ops>>
 Init == phase = "start" /\ sid = 0 /\ ops = <<>>
 PickSeed == phase = "start" /\ \E i \in 1..Len(Seeds) : sid' = i /\ phase' = "seed" /\ UNCHANGED ops
 Family(seed) ==
-    IF IsBinary(seed) THEN SetFaults(seed) \cup TruncFaults(seed) \cup PairFaults(seed) \cup (IF Tier = 0 THEN {} ELSE SetTruncFaults(seed))
+    IF IsGrow(seed) THEN GrowFaults(seed, Tier)
+    ELSE IF IsBinary(seed) THEN SetFaults(seed) \cup TruncFaults(seed) \cup PairFaults(seed) \cup (IF Tier = 0 THEN {} ELSE SetTruncFaults(seed))
     ELSE IF IsDesc(seed) THEN DescFaults(seed)
     ELSE TextFaults(seed) \cup TextPairFaults(seed)
-PickFault == phase = "seed" /\ \E f \in Family(Seeds[sid]) \cup {<<>>} : ops' = f /\ phase' = "fault" /\ UNCHANGED sid
+PickFault == phase = "seed" /\ \E f \in Family(Seeds[sid]) \cup (IF IsGrow(Seeds[sid]) THEN {} ELSE {<<>>}) : ops' = f /\ phase' = "fault" /\ UNCHANGED sid
 Next == PickSeed \/ PickFault
 Spec == Init /\ [][Next]_vars
 
